@@ -753,6 +753,149 @@ theorem foldKeyed_one_entry_per_key (f : AccFn) (tbl x : List Val) (hn : (tbl.ma
       · exact Or.inl (Or.inr h)
       · exact Or.inr h
 
+theorem aux_tblGet_tblSet (tbl : List Val) (k v k' : Val) :
+    tblGet (tblSet tbl k v) k' = if k' = k then some v else tblGet tbl k' := by
+  unfold tblSet
+  by_cases hany : (tbl.any fun e => keyOf e == k) = true
+  · rw [if_pos hany]
+    have hkey : ∀ e : Val, keyOf (if (keyOf e == k) = true then Val.pair k v else e) = keyOf e := by
+      intro e
+      by_cases h : keyOf e = k
+      · simp [h, aux_keyOf_pair]
+      · have : (keyOf e == k) = false := by simpa using h
+        simp [this]
+    have hcomp : ((fun e => keyOf e == k') ∘ fun e => if (keyOf e == k) = true then Val.pair k v else e)
+        = fun e => keyOf e == k' := by
+      funext e; simp only [Function.comp, hkey]
+    unfold tblGet
+    rw [List.find?_map, hcomp]
+    by_cases hk' : k' = k
+    · subst hk'
+      obtain ⟨e, he, hek⟩ := List.any_eq_true.mp hany
+      have hsome : (tbl.find? fun e => keyOf e == k').isSome := by
+        rw [List.find?_isSome]; exact ⟨e, he, hek⟩
+      obtain ⟨e', he'⟩ := Option.isSome_iff_exists.mp hsome
+      have hp := List.find?_some he'
+      simp only [he', Option.map_some, if_true, hp]
+      rfl
+    · simp only [hk', if_false]
+      cases hf : tbl.find? (fun e => keyOf e == k') with
+      | none => rfl
+      | some e' =>
+        have hp := List.find?_some hf
+        have hne : ¬ keyOf e' = k := by
+          intro h; apply hk'; rw [← h]; exact (by simpa using hp : keyOf e' = k').symm
+        simp [hne]
+  · rw [if_neg hany]
+    have hnone : ∀ x ∈ tbl, ¬ keyOf x = k := by
+      intro x hx hxk
+      exact hany (List.any_eq_true.mpr ⟨x, hx, by simpa using hxk⟩)
+    unfold tblGet
+    rw [List.find?_append]
+    by_cases hk' : k' = k
+    · subst hk'
+      have : tbl.find? (fun e => keyOf e == k') = none := by
+        apply List.find?_eq_none.mpr
+        intro x hx
+        simpa using hnone x hx
+      simp [this, aux_keyOf_pair, Val.snd]
+    · have hne : ¬ k = k' := fun h => hk' h.symm
+      cases hf : tbl.find? (fun e => keyOf e == k') with
+      | none => simp [aux_keyOf_pair, hk', hne]
+      | some e' => simp [hk']
+
+/-- `fold_keyed`: the entry of every key is the fold of that key's values, in arrival order,
+    starting from the initial value (or from the persisted entry) -/
+theorem foldKeyed_entry_is_fold_of_key_values (f : AccFn) (tbl x : List Val) (k : Val) :
+    tblGet (x.foldl (foldKeyedStep f) tbl) k =
+      if (x.filter fun kv => keyOf kv == k).isEmpty then tblGet tbl k
+      else some (((x.filter fun kv => keyOf kv == k).map Val.snd).foldl f.app ((tblGet tbl k).getD (.num 0))) := by
+  induction x generalizing tbl with
+  | nil => simp
+  | cons kv kvs ih =>
+    rw [List.foldl_cons, ih]
+    have hstep : tblGet (foldKeyedStep f tbl kv) k =
+        if k = keyOf kv then some (f.app ((tblGet tbl (keyOf kv)).getD (.num 0)) kv.snd) else tblGet tbl k := by
+      unfold foldKeyedStep
+      rw [aux_tblGet_tblSet]
+      rfl
+    by_cases hk : keyOf kv = k
+    · have hb : (keyOf kv == k) = true := by simpa using hk
+      subst hk
+      simp only [List.filter_cons, hb, if_true, hstep, List.isEmpty_cons, Bool.false_eq_true, if_false,
+        List.map_cons, List.foldl_cons, Option.getD_some]
+      by_cases hem : (kvs.filter fun kv' => keyOf kv' == keyOf kv).isEmpty = true
+      · have : kvs.filter (fun kv' => keyOf kv' == keyOf kv) = [] := List.isEmpty_iff.mp hem
+        simp [this]
+      · simp [hem]
+    · have hb : (keyOf kv == k) = false := by simpa using hk
+      have hk2 : ¬ k = keyOf kv := fun h => hk h.symm
+      simp only [List.filter_cons, hb, Bool.false_eq_true, if_false, hstep, hk2]
+
+/-- `cross_singleton`: pairs every input item with the first singleton item (of the tick, or the
+    first ever under `'static`); without one, nothing is emitted -/
+theorem crossSingleton_pairs_with_first (p : Pers) (t : Nat) (st : OpState) (x y : Stream) :
+    (opSem (.crossSingleton p) t [] st [x, y]).2 =
+      [match (st.acc <|> y.head?) with | some s => x.map (fun v => .pair v s) | none => []] := by
+  cases h : st.acc with
+  | none => simp only [opSem, inp, h]; rfl
+  | some s => simp [opSem, inp, h]
+
+/-- `defer_signal`: everything buffered so far is released exactly in the ticks that carry a signal -/
+theorem deferSignal_releases_on_signal (h : List (Stream × Stream)) :
+    ∀ (t : Nat) (st : OpState),
+      runOpFrom .deferSignal t st (bin h) =
+        (h.foldl (fun (acc : List Val × List (List Stream)) x =>
+            if x.2.isEmpty then (acc.1 ++ x.1, acc.2 ++ [[[]]]) else ([], acc.2 ++ [[acc.1 ++ x.1]]))
+          (st.l, [])).2 := by
+  have key : ∀ (h : List (Stream × Stream)) (t : Nat) (st : OpState) (pre : List (List Stream)),
+      pre ++ runOpFrom .deferSignal t st (bin h) =
+        (h.foldl (fun (acc : List Val × List (List Stream)) x =>
+            if x.2.isEmpty then (acc.1 ++ x.1, acc.2 ++ [[[]]]) else ([], acc.2 ++ [[acc.1 ++ x.1]]))
+          (st.l, pre)).2 := by
+    intro h
+    induction h with
+    | nil => intro t st pre; simp [bin, runOpFrom]
+    | cons x xs ih =>
+      intro t st pre
+      simp only [bin, List.map_cons, runOpFrom, List.foldl_cons]
+      by_cases hs : x.2.isEmpty = true
+      · have : opSem .deferSignal t [] st [x.1, x.2] = ({ st with l := st.l ++ x.1 }, [[]]) := by
+          simp [opSem, inp, hs]
+        rw [this, if_pos hs]
+        have := ih (t + 1) { st with l := st.l ++ x.1 } (pre ++ [[[]]])
+        simp only [bin] at this
+        rw [← this]; simp
+      · have : opSem .deferSignal t [] st [x.1, x.2] = ({ st with l := [] }, [st.l ++ x.1]) := by
+          simp [opSem, inp, hs]
+        rw [this, if_neg hs]
+        have := ih (t + 1) { st with l := [] } (pre ++ [[st.l ++ x.1]])
+        simp only [bin] at this
+        rw [← this]; simp
+  intro t st
+  simpa using key h t st []
+
+/-- `lattice_fold` / `lattice_reduce` on `Max`: the running maximum (of the tick / of everything) -/
+theorem latticeFold_static_is_running_max (h : List Stream) :
+    runOp (.latticeFold .static) (un h) = (cums [] h).map fun c => [[c.foldl AccFn.max.app (.num 0)]] := by
+  unfold runOp un
+  have key : ∀ (st : OpState) (t : Nat) (pre : Stream),
+      st.acc.getD (.num 0) = pre.foldl AccFn.max.app (.num 0) →
+      runOpFrom (.latticeFold .static) t st (h.map fun x => [x])
+        = (cums pre h).map fun c => [[c.foldl AccFn.max.app (.num 0)]] := by
+    induction h with
+    | nil => intro st t pre _; rfl
+    | cons x xs ih =>
+      intro st t pre hp
+      simp only [List.map_cons, runOpFrom, cums]
+      have : (opSem (.latticeFold .static) t [] st [x]) =
+          ({ st with acc := some ((pre ++ x).foldl AccFn.max.app (.num 0)) }, [[(pre ++ x).foldl AccFn.max.app (.num 0)]]) := by
+        simp [opSem, inp, hp, List.foldl_append]
+      rw [this]
+      simp only [List.cons.injEq, true_and]
+      exact ih _ _ _ (by simp)
+  simpa using key {} 0 [] (by simp)
+
 /-! ### non-vacuity: concrete runs of the reference semantics -/
 
 example : runOp .persist (un [[.num 1], [], [.num 2]]) = [[[.num 1]], [[.num 1]], [[.num 1, .num 2]]] := by decide
